@@ -32,7 +32,7 @@ func runC15(c *core.Ctx) {
 	el := newEntryLocks(c, lc)
 	fns := srcFuncsOfPkg(c, rel)
 
-	c.Doc("C15.pairing", "mutex operations balanced on every path (bus/directory)", 7)
+	c.Doc("C15.pairing", "mutex operations balanced on every path (bus/directory)", 4)
 	var handwritten []*ssa.Function
 	for _, fn := range fns {
 		if !isGenerated(c, fn) {
